@@ -6,6 +6,7 @@ import Theorems.C07
 import Theorems.C10
 import Theorems.C11
 import Theorems.C13
+import Theorems.Message
 
 namespace Amqp.E2E
 open Amqp.LinkSplit Amqp.Frame Amqp.Gen.LinkSplit Amqp.Gen.FrameK
